@@ -23,7 +23,7 @@
 (*   ancilla anc),  cw: ancilla indices the instruction is conditioned on, *)
 (*   cv: the accepted value tuples of those bits (<<>> = unconditional),   *)
 (*   pe, tol: per printed parameter |printed - lattice angle| and the      *)
-(*   admissible error at the requested precision, in units of 1e-9]        *)
+(*   admissible error at the requested precision, in units of 1e-10]       *)
 (*                                                                         *)
 (* Semantics (one instruction per TLC step, exact ring arithmetic):        *)
 (* measurement is deferred - "m" is a CNOT onto its fresh ancilla, a       *)
